@@ -4,8 +4,9 @@ Specification: spec/MacroProc.tla (machine side shaped like as.c / asmsub.c / as
 side ExpandDecl = the manual's textual substitution carried out by hand), program families spec/MacroProg.tla.
 
 (M) MacroProc_MC: every program of the nesting family (bodies  label? construct? statement?,  nesting <= 2 quick /
-    3 thorough (two instances: counts {0,2} with statements after the nested construct, count 2 with a label before
-    it; the as-coded instance uses nesting 2 with the rich profile), counts {0,2}, loops REPT/IRP/IRPC/WHILE (+IRPN, GLOBALSYMBOLS in the rich profile), macros with
+    3 thorough (two instances: counts {0,2} with a statement after the nested construct, count 2 with a label before
+    and a statement after it - 75 k programs, 2.6 M states; the as-coded instance uses nesting 2 with the rich
+    profile), counts {0,2}, loops REPT/IRP/IRPC/WHILE (+IRPN, GLOBALSYMBOLS in the rich profile), macros with
     0..2 parameters, default, empty and excess arguments) and of the focused families (binding shapes, SHIFT
     recursion, EXITM in IF, label privacy, INCLUDE nesting, adjacent \\a\\\\b\\ parameters) is run line by line;
     TLC checks  delivered = ExpandDecl(program), label privacy, balance of tag / symbol-space / IF stacks.
